@@ -512,7 +512,7 @@ let layout_main () =
         | [] -> [] | _ -> failwith "bad member list" in
       let ms = mems rest in
       let l = if kind = "S" then struct_layout (packed = "1") (n_of_int (int_of_string align0)) ms
-              else union_layout (n_of_int (int_of_string align0)) ms in
+              else union_layout (packed = "1") (n_of_int (int_of_string align0)) ms in
       let bad = kind = "S" && not (no_bad (packed = "1") { ls_bits = N0; ls_align = n_of_int (int_of_string align0) } ms) in
       Printf.printf "%d %d %d%s\n" (int_of_n l.l_size) (int_of_n l.l_align) (if bad then 1 else 0)
         (String.concat "" (List.map (fun p -> Printf.sprintf " %d:%d" (int_of_n p.p_off) (int_of_n p.p_bit)) l.l_places));
